@@ -381,7 +381,21 @@ def rank_deficient_stream(ctx):
                     break
             ctx.evaluations += 1
         except Exception as e:  # noqa: BLE001
-            ctx.fail(f'step on finite inputs raised {type(e).__name__}: {str(e).splitlines()[0][:200]}', case, 'rank-deficient-raised')
+            # a damped factor that is singular to working precision cannot be inverted by anybody: the step may give up on it.
+            # It is a failure only if the plain inverse of every damped factor (float32, as the library computes it) exists.
+            invertible = True
+            try:
+                for _, lay in p._layers.values():
+                    for f_ in (lay.a_factor, lay.g_factor):
+                        if f_ is not None:
+                            torch.linalg.inv(f_.to(torch.float32) + 0.001 * torch.eye(f_.shape[0]))
+            except Exception:  # noqa: BLE001
+                invertible = False
+            if invertible:
+                ctx.fail(f'step on finite inputs raised {type(e).__name__}: {str(e).splitlines()[0][:200]} although every damped factor has a '
+                         'float32 inverse', case, 'rank-deficient-raised')
+            else:
+                ctx.count('rank-deficient-singular-to-working-precision')
             continue
         ctx.case(str(case), nontrivial=True, sample=case)
         ctx.count('rank-deficient-' + method)
